@@ -54,3 +54,5 @@ def run(ctx):
     ctx.guard(k19_match, ctx, "C04")
     from ..rules_misc import k21_match_overrides
     ctx.guard(k21_match_overrides, ctx, "C04")
+    from ..rules_ast import match_slot_rule
+    ctx.guard(match_slot_rule, ctx, "C04.match-slot")
